@@ -107,7 +107,8 @@ def catalogue():
     return T
 
 
-ACTIONS_KNOWN = ["leave", "read", "read-mutate", "assign", "assign-after-read",
+ACTIONS_KNOWN = ["leave", "read", "read-mutate", "read-save-mutate", "assign",
+                 "assign-after-read",
                  "retag", "read-retag", "retag-same", "read-twice"]
 ACTIONS_UNKNOWN = ["leave", "read", "read-twice", "reattach"]
 
@@ -119,6 +120,7 @@ def actions_for(entry):
            "read-twice", "reattach"]
     if entry.get("mutate"):
         out.append("read-mutate")
+        out.append("read-save-mutate")
     if entry.get("retag"):
         out += ["retag", "read-retag"]
     return out
@@ -292,6 +294,13 @@ def run_history(entry, where, history):
                     d = aux.data
                     mutate(g, entry["mutate"], d)
                     want_bytes = None  # computed from the value below
+                elif act == "read-save-mutate":
+                    # an intermediate save between taking the value and
+                    # editing it in place through the held reference
+                    d = aux.data
+                    ir.save_protobuf_file(io.BytesIO())
+                    mutate(g, entry["mutate"], d)
+                    want_bytes = None
                 elif act in ("assign", "assign-after-read"):
                     if act == "assign-after-read":
                         aux.data
